@@ -17,7 +17,7 @@ VERDICT = "c08_verdict"
 EXPLAIN = "c08_explain"
 CASES_PER_FILE = 120
 CASE_TIMEOUT = 5
-TIERS = {"quick": {"n": 2400}, "thorough": {"n": 40000}}
+TIERS = {"quick": {"n": 2200}, "thorough": {"n": 16000, "exhaustive": True}}
 RULE = ("object graphs of <= 12 containers (list/tuple/dict/set/frozenset, empty ones included), leaves of 8 python "
         "types, sharing probability ~0.2 and back-edge (cycle) probability ~0.1, visit programs (ordered rules "
         "predicate -> drop | keep | new key/new leaf) over key, depth, path, leaf token, kind and len, or the "
@@ -284,6 +284,8 @@ def run_impl(case):
             entries.append([[key_tok(x) for x in path], ref_of(value), got])
         obs["research"] = ["ok", entries]
     obs["in_final"] = Ser(ids=s_in.ids).ser(root)
+    if case.get("dc"):
+        obs["deepcopy"] = Ser(alias=in_ids).ser(copy.deepcopy(root))
     return obs
 
 
@@ -366,8 +368,10 @@ def to_coq(case, obs):
             for p, r, g in obs["research"][1]) + "])"
     else:
         ents = "(Raise %s)" % EXN[obs["research"][1]]
-    return "mkCase %s %s %s %s %s %s %s %s" % (
-        cobj(obs["in"]), visit, out, calls, cobj(obs["in_after"]), cpred(case["query"]), ents, cobj(obs["in_final"]))
+    dc = "(Some %s)" % cobj(obs["deepcopy"]) if "deepcopy" in obs else "None"
+    return "mkCase %s %s %s %s %s %s %s %s %s" % (
+        cobj(obs["in"]), visit, out, calls, cobj(obs["in_after"]), cpred(case["query"]), ents,
+        cobj(obs["in_final"]), dc)
 
 
 # --------------------------------------------------------------------------
@@ -506,7 +510,56 @@ def buildable(nodes):
     return all(dfs(i) for i in range(len(nodes)) if imm[i] and state[i] == 0)
 
 
+def valid_members(nodes):
+    """members of sets/frozensets are hashable (leaves, or tuples/frozensets of hashables)"""
+    memo = {}
+
+    def hashable(i, stack=()):
+        if i in memo:
+            return memo[i]
+        if i in stack or nodes[i]["k"] not in ("tuple", "frozenset"):
+            return False
+        r = all(c[0] == "L" or hashable(c[1], stack + (i,)) for c in nodes[i]["c"])
+        memo[i] = r
+        return r
+    for nd in nodes:
+        if nd["k"] in ("set", "frozenset"):
+            if not all(c[0] == "L" or hashable(c[1]) for c in nd["c"]):
+                return False
+    return True
+
+
+def small_graphs():
+    """EXHAUSTIVE: every buildable graph of one or two containers (all five kinds), each with at most two
+    children drawn from two leaves and references to either container (self-references, mutual references,
+    sharing), every node reachable from the root - under the default visit and under one dropping/re-keying
+    visit program."""
+    import itertools
+    progs = [None, [[["leaflt", 5], ["drop"]], [["true"], ["put", ["T", 1], None]]]]
+    dkeys = [["T", 0], ["T", 1]]
+    for n in (1, 2):
+        slots = [["L", 4], ["L", 5]] + [["N", j] for j in range(n)]
+        kids = [()] + [(a,) for a in slots] + [(a, b) for a in slots for b in slots]
+        for kinds in itertools.product(list(KINDS), repeat=n):
+            for ch in itertools.product(kids, repeat=n):
+                if n == 2 and not any(c == ["N", 1] for c in ch[0]):
+                    continue                                  # node 1 unreachable (only node 0 -> 1 can reach it)
+                nodes = []
+                for k, cs in zip(kinds, ch):
+                    if k == "dict":
+                        nodes.append({"k": k, "c": [[dkeys[i], c] for i, c in enumerate(cs)]})
+                    else:
+                        nodes.append({"k": k, "c": [list(c) for c in cs]})
+                plain = [{"k": nd["k"], "c": [(c[1] if nd["k"] == "dict" else c) for c in nd["c"]]} for nd in nodes]
+                if not buildable(nodes) or not valid_members(plain):
+                    continue
+                for pr in progs:
+                    yield {"nodes": nodes, "root": ["N", 0], "visit": pr, "query": ["true"], "dc": pr is None}
+
+
 def generate(rng, tier, n):
+    if tier == "thorough":
+        yield from small_graphs()
     for i in range(n):
         if rng.random() < 0.015:
             nodes, root = [], ["L", gen_leaf(rng)]
@@ -517,7 +570,7 @@ def generate(rng, tier, n):
                 if buildable(nodes):
                     break
         yield {"nodes": nodes, "root": root, "visit": gen_prog(rng),
-               "query": ["true"] if rng.random() < 0.35 else gen_pred(rng)}
+               "query": ["true"] if rng.random() < 0.35 else gen_pred(rng), "dc": rng.random() < 0.3}
 
 
 # --------------------------------------------------------------------------
